@@ -18,12 +18,12 @@ CONSTANTS KeySets,       \* key lists the server may hold (all contain the clien
           CSyms, BSyms   \* client / backend record alphabets
 
 \* client records
-ClientAll == {"CH2ok", "CH2noEch", "CH2cid", "CH2suite", "CH2enc", "CH2undec", "CH2sni", "CH2alpn", "CH2outerSni", "CH2innerType",
+ClientAll == {"CH2ok", "CH2noEch", "CH2cid", "CH2suite", "CH2enc", "CH2undec", "CH2sni", "CH2sniKelvin", "CH2alpn", "CH2outerSni", "CH2innerType",
               "CH2no13", "CH2noEchNo13", "CH2again", "CCS", "HSother", "ALERT", "APP", "ZERO", "ZEROAPP"}
 \* backend records
 BackendAll == {"SH", "HRR", "CCS", "HSother", "APP", "SHbad", "ZERO", "ZEROAPP", "ALERTF", "SH12"}
 
-IsCH(s) == s \in {"CH2ok", "CH2noEch", "CH2cid", "CH2suite", "CH2enc", "CH2undec", "CH2sni", "CH2alpn", "CH2outerSni", "CH2innerType", "CH2no13", "CH2noEchNo13", "CH2again"}
+IsCH(s) == s \in {"CH2ok", "CH2noEch", "CH2cid", "CH2suite", "CH2enc", "CH2undec", "CH2sni", "CH2sniKelvin", "CH2alpn", "CH2outerSni", "CH2innerType", "CH2no13", "CH2noEchNo13", "CH2again"}
 
 VARIABLES first, keyset,               \* scenario
           accepted, rPass, wPass, retry, seq, cseq, st, wDead,
@@ -44,7 +44,7 @@ Init ==
   /\ hist = <<>> /\ outs = <<>>
 
 \* every CH2* the client emits is sealed with its one sender, at the sender's next sequence number
-Seals(s) == s \in {"CH2ok", "CH2cid", "CH2suite", "CH2enc", "CH2undec", "CH2sni", "CH2alpn", "CH2outerSni", "CH2no13", "CH2again"}
+Seals(s) == s \in {"CH2ok", "CH2cid", "CH2suite", "CH2enc", "CH2undec", "CH2sni", "CH2sniKelvin", "CH2alpn", "CH2outerSni", "CH2no13", "CH2again"}
 
 \* result of processing a retried hello (ech.go:150-176,181-235): <<kind, class, opened>>
 RetryResult(s) ==
@@ -53,7 +53,9 @@ RetryResult(s) ==
     [] s = "CH2no13"      -> <<"abort", "illegal_parameter", FALSE>>      \* a matching, sealed ECH extension but no TLS 1.3 offer: not processed, hence "no inner hello"
     [] s \in {"CH2cid", "CH2suite", "CH2enc"} -> <<"abort", "illegal_parameter", FALSE>>
     [] s = "CH2undec"     -> <<"abort", "decrypt_error", FALSE>>
-    [] s \in {"CH2sni", "CH2alpn", "CH2outerSni"} -> IF cseq = seq THEN <<"abort", "illegal_parameter", TRUE>> ELSE <<"abort", "decrypt_error", FALSE>>
+    \* (CH2sniKelvin: the first hello's inner name with its "k" written as U+212A - equal only under Unicode case folding, which is
+    \*  not how host names compare: another name)
+    [] s \in {"CH2sni", "CH2sniKelvin", "CH2alpn", "CH2outerSni"} -> IF cseq = seq THEN <<"abort", "illegal_parameter", TRUE>> ELSE <<"abort", "decrypt_error", FALSE>>
     [] s \in {"CH2ok", "CH2again"} -> IF cseq = seq THEN <<"inner", "", TRUE>> ELSE <<"abort", "decrypt_error", FALSE>>
 
 Log(step, out) == hist' = Append(hist, step) /\ outs' = Append(outs, out)
